@@ -142,6 +142,7 @@ NOT_OWN.update({
 })
 OBSOLETE = {
  "C15-I": "confirmed and detected by C15 on the tree it was written for (53ee924); it only made the defective Content::Owned arm of ListIter reachable, and that arm was repaired as F13 (5256764): on the repaired tree the change is harmless (its own demo passes with it, CONFIRM-on-repaired-tree-5256764.txt)",
+ "C14-D": "round 2, detected by C14 on the trees up to 5256764: it added a start-trimmer reset to IoReader::read_to_end only. The repair F14 (5c98377) adds that reset to both readers, so the patch no longer applies and the difference it created cannot exist any more",
  "C14-J": "written against 5256764: it added the start-trimmer reset to IoReader::read_to_end only. The repair F14 (5c98377) adds that reset to both readers, so the patch no longer applies and the difference it created cannot exist; detected by C14 on the tree it was written for",
 }
 # rounds two to seven: change / needs are taken from the agent's NOTES.md
